@@ -33,8 +33,8 @@ import (
 // handler calls fasthttpadaptor.ConvertRequest (implementation); method, URL, proto, Host, headers, body compared.
 
 type c36Servers struct {
-	nhLn       *c36PipeListener
-	fhLn, cvLn *fasthttputil.InmemoryListener
+	nhLn             *c36PipeListener
+	fhLn, cvLn, ovLn *fasthttputil.InmemoryListener
 }
 
 // c36PipeListener serves net/http over net.Pipe: net/http aborts its background read with SetReadDeadline(past), which
@@ -92,6 +92,22 @@ func c36ProgFromHeader(s string) []c36Op {
 	return c36Decode(args)
 }
 
+// c36Repeat: n bytes made of the pattern repeated (op 'R': one Write of a generated body, so that body sizes around the
+// adaptor's pooled 32 KiB buffer and other thresholds fit into a request header)
+func c36Repeat(pat []byte, n int) []byte {
+	if len(pat) == 0 {
+		pat = []byte("x")
+	}
+	if n < 0 || n > 1<<21 {
+		n = 0
+	}
+	out := make([]byte, n)
+	for i := range out {
+		out[i] = pat[i%len(pat)]
+	}
+	return out
+}
+
 // the one handler served by both servers
 func c36Handler(w http.ResponseWriter, r *http.Request) {
 	for _, o := range c36ProgFromHeader(r.Header.Get("X-Prog")) {
@@ -110,6 +126,9 @@ func c36Handler(w http.ResponseWriter, r *http.Request) {
 			w.Header().Del(string(o.a))
 		case 'B':
 			_, _ = w.Write(o.a)
+		case 'R':
+			n, _ := strconv.Atoi(string(o.b))
+			_, _ = w.Write(c36Repeat(o.a, n))
 		case 'F':
 			if f, ok := w.(http.Flusher); ok {
 				f.Flush()
@@ -174,6 +193,32 @@ func c36Start() {
 		go nh.Serve(c36S.nhLn) //nolint:errcheck
 		fh := &fasthttp.Server{Handler: fasthttpadaptor.NewFastHTTPHandler(h), Logger: nopLogger{}, NoDefaultServerHeader: true}
 		go fh.Serve(c36S.fhLn) //nolint:errcheck
+		// "overlap": the adaptor handler wrapped by a fasthttp middleware that, AFTER the adaptor returned and BEFORE the
+		// server writes the response, serves other adaptor requests (program in X-Prog-B) to completion on fresh contexts —
+		// what a logging/metrics middleware or simply another connection's goroutine does. The first response must still
+		// carry the bytes its net/http handler wrote: after the adaptor returns, the response owns its body.
+		adaptorH := fasthttpadaptor.NewFastHTTPHandler(h)
+		c36S.ovLn = fasthttputil.NewInmemoryListener()
+		ov := &fasthttp.Server{Logger: nopLogger{}, NoDefaultServerHeader: true, Handler: func(ctx *fasthttp.RequestCtx) {
+			adaptorH(ctx)
+			pb := ctx.Request.Header.Peek("X-Prog-B")
+			if len(pb) == 0 {
+				return
+			}
+			want := c36BodyOf(c36ProgFromHeader(string(pb)))
+			for i := 0; i < 6; i++ {
+				var req2 fasthttp.Request
+				req2.SetRequestURI("http://example.com/b")
+				req2.Header.SetBytesV("X-Prog", pb)
+				var ctx2 fasthttp.RequestCtx
+				ctx2.Init(&req2, nil, nopLogger{})
+				adaptorH(&ctx2)
+				if !bytes.Equal(ctx2.Response.Body(), want) {
+					ctx.Response.Header.Set("X-Verif-B-Mismatch", fmt.Sprintf("request B #%d: body of %d bytes, want %d", i, len(ctx2.Response.Body()), len(want)))
+				}
+			}
+		}}
+		go ov.Serve(c36S.ovLn) //nolint:errcheck
 		cv := &fasthttp.Server{Logger: nopLogger{}, Handler: func(ctx *fasthttp.RequestCtx) {
 			var r http.Request
 			var c *c36Converted
@@ -246,6 +291,21 @@ func (r *c36Resp) statusString() string {
 		return fmt.Sprintf("none(last=%d)", r.last)
 	}
 	return strconv.Itoa(r.status)
+}
+
+// c36BodyOf: the bytes a write-only program produces
+func c36BodyOf(ops []c36Op) []byte {
+	var b []byte
+	for _, o := range ops {
+		switch o.op {
+		case 'B':
+			b = append(b, o.a...)
+		case 'R':
+			n, _ := strconv.Atoi(string(o.b))
+			b = append(b, c36Repeat(o.a, n)...)
+		}
+	}
+	return b
 }
 
 // c36Touched: canonical names the program touched, in sorted order
@@ -326,7 +386,7 @@ func c36CompareLean(real *c36Resp, l *c36Lean, touched []string, head bool, with
 		}
 	}
 	if !head && H(real.body) != l.body {
-		return fmt.Sprintf("body: real %q, lean %s", real.body, l.body)
+		return fmt.Sprintf("body: real %s, lean (hex) %.80s… (%d hex chars)", c36Brief(real.body), l.body, len(l.body))
 	}
 	return ""
 }
@@ -336,7 +396,8 @@ func c36AutoField(k string, status int) bool {
 	return k == "Content-Type"
 }
 
-func c36BuildProg(a [][]byte) *Case {
+// c36BuildProg: kind "prog" (overlapB == nil) or "overlap" (overlapB = the size of the other requests' bodies)
+func c36BuildProg(a [][]byte, overlapB []byte) *Case {
 	if len(a) < 2 {
 		return nil
 	}
@@ -347,11 +408,18 @@ func c36BuildProg(a [][]byte) *Case {
 	if ops == nil && len(prog) > 0 {
 		return nil
 	}
-	raw := []byte(fmt.Sprintf("%s /p HTTP/1.%s\r\nHost: example.com\r\nX-Prog: %s\r\nConnection: close\r\n\r\n", method, minor, c36ProgHeader(prog)))
+	extra := ""
+	fhLn := c36S.fhLn
+	if overlapB != nil {
+		// the other requests write a body of that size made of bytes the first program never writes
+		extra = "X-Prog-B: " + c36ProgHeader([][]byte{{'R'}, B("#~"), overlapB}) + "\r\n"
+		fhLn = c36S.ovLn
+	}
+	raw := []byte(fmt.Sprintf("%s /p HTTP/1.%s\r\nHost: example.com\r\nX-Prog: %s\r\n%sConnection: close\r\n\r\n", method, minor, c36ProgHeader(prog), extra))
 	t0 := time.Now()
 	nhRaw, err1 := c36Exchange(c36S.nhLn, raw)
 	t1 := time.Now()
-	fhRaw, err2 := c36Exchange(c36S.fhLn, raw)
+	fhRaw, err2 := c36Exchange(fhLn, raw)
 	if d := time.Since(t0); d > time.Second && c36Debug {
 		fmt.Fprintf(os.Stderr, "slow: nh %v fh %v: %q\n", t1.Sub(t0), time.Since(t1), hexArgs(a))
 	}
@@ -360,6 +428,7 @@ func c36BuildProg(a [][]byte) *Case {
 	head := method == "HEAD"
 	touched := c36Touched(ops)
 	n1xx, nW, late, flush, rep := 0, 0, false, false, false
+	total := 0
 	fixed := false
 	cnt := map[string]int{}
 	for _, o := range ops {
@@ -372,8 +441,14 @@ func c36BuildProg(a [][]byte) *Case {
 			} else {
 				fixed = true
 			}
-		case 'B':
+		case 'B', 'R':
 			fixed = true
+			if o.op == 'R' {
+				n, _ := strconv.Atoi(string(o.b))
+				total += n
+			} else {
+				total += len(o.a)
+			}
 		case 'F':
 			fixed, flush = true, true
 		case 'A', 'S', 'D':
@@ -402,8 +477,17 @@ func c36BuildProg(a [][]byte) *Case {
 	if rep {
 		tags = append(tags, "prog:repeated-field")
 	}
-	impl := fmt.Sprintf("adaptor: status=%s hdr=%v body=%q | net/http: status=%s interim=%v hdr=%v body=%q", fh.statusString(), c36Pick(fh.header, touched), fh.body,
-		nh.statusString(), nh.interim, c36Pick(nh.header, touched), nh.body)
+	switch {
+	case total >= 32768:
+		tags = append(tags, "prog:body>=32KiB")
+	case total >= 4096:
+		tags = append(tags, "prog:body4-32KiB")
+	}
+	if overlapB != nil {
+		tags[0] = "overlap"
+	}
+	impl := fmt.Sprintf("adaptor: status=%s hdr=%v body=%s | net/http: status=%s interim=%v hdr=%v body=%s", fh.statusString(), c36Pick(fh.header, touched), c36Brief(fh.body),
+		nh.statusString(), nh.interim, c36Pick(nh.header, touched), c36Brief(nh.body))
 	return &Case{
 		Lines:      []string{Line("nhwriter", prog...), Line("adaptor", prog...)},
 		Impl:       impl,
@@ -447,7 +531,14 @@ func c36BuildProg(a [][]byte) *Case {
 					}
 				}
 				if !head && !bytes.Equal(nh.body, fh.body) {
-					return Verdict{VSpec, "body-differs", fmt.Sprintf("body: net/http %q, adaptor %q (status %d)", nh.body, fh.body, nh.status)}
+					key := "body-differs"
+					if overlapB != nil {
+						key = "body-changed-after-handler-returned"
+					}
+					return Verdict{VSpec, key, fmt.Sprintf("body: net/http %s, adaptor %s (status %d)", c36Brief(nh.body), c36Brief(fh.body), nh.status)}
+				}
+				if m := fh.header.Get("X-Verif-B-Mismatch"); m != "" {
+					return Verdict{VSpec, "overlapping-request-body-differs", "a request served while the first response was pending got a wrong body: " + m}
 				}
 			}
 			if r[0] == "no-driver" {
@@ -498,6 +589,15 @@ func c36RefSnapshot(ops []c36Op) http.Header {
 		}
 	}
 	return h
+}
+
+// c36Brief renders a body for a report: length, the first bytes and the position of the first byte that is not part
+// of the run the body starts with
+func c36Brief(b []byte) string {
+	if len(b) <= 80 {
+		return fmt.Sprintf("%q", b)
+	}
+	return fmt.Sprintf("len=%d %q…%q", len(b), b[:40], b[len(b)-16:])
 }
 
 func c36Pick(h http.Header, names []string) string {
@@ -749,9 +849,9 @@ func init() {
 	Register(&Prop{
 		ID: "C36",
 		Rule: "prog: handler programs of 0..9 ops over WriteHeader(code in {100,102,103,199,101,200,201,204,299,301,304,404,500,999}), Header().Add/Set/Del over 7 names " +
-			"(canonical and lower-case spellings, incl. Set-Cookie/Content-Type/Cache-Control) x 5 values, Write(0..40 bytes text or html), Flush; each run under GET/HEAD/POST x HTTP/1.0|1.1 " +
+			"(canonical and lower-case spellings, incl. Set-Cookie/Content-Type/Cache-Control) x 5 values, Write(0..40 bytes text or html), Write of generated bodies of 0/1/511/513/4095/4096/4097/8000/20000/32767/32768/32769/102400 bytes (one Write, split Writes, before/after Flush), Flush; each run under GET/HEAD/POST x HTTP/1.0|1.1 " +
 			"against net/http's server AND fasthttp+adaptor with the same http.Handler; structured shapes (1xx then final, header op after WriteHeader/Write/Flush, repeated Add) are generated on purpose; " +
-			"thorough adds all programs of <=4 ops over a 9-op alphabet. req: grammar-built requests (7 methods; origin-form, absolute-form and '*' targets incl. literal '#', leading '//', '?' after '#', %23/%2F/%3f, ':' '@' ';' — fixed shapes plus random strings over the RFC 3986 delimiters; URL compared field by field: scheme/opaque/user/host/path/rawpath/rawquery/fragment, HTTP/1.0|1.1, 0..6 fields with repeated and mixed-case names, " +
+			"thorough adds all programs of <=4 ops over a 9-op alphabet. overlap: the same programs served by the adaptor wrapped in a fasthttp middleware that, after the adaptor handler returned and before the response is written, serves 6 other adaptor requests (bodies of 100..40000 different bytes) to completion — the first response must still carry what its handler wrote. req: grammar-built requests (7 methods; origin-form, absolute-form and '*' targets incl. literal '#', leading '//', '?' after '#', %23/%2F/%3f, ':' '@' ';' — fixed shapes plus random strings over the RFC 3986 delimiters; URL compared field by field: scheme/opaque/user/host/path/rawpath/rawquery/fragment, HTTP/1.0|1.1, 0..6 fields with repeated and mixed-case names, " +
 			"Content-Length or chunked bodies) parsed by http.ReadRequest and by fasthttp+ConvertRequest. non-trivial = program with >=2 ops incl. a WriteHeader or header op / request accepted by both with >=1 field; distinct = distinct input",
 		Parallel:   true,
 		NoShrink:   true, // the generic shrinker edits bytes inside arguments (method names, codes); programs are emitted short-first instead
@@ -761,12 +861,18 @@ func init() {
 			"compared: final status, values of every header name the handler touched (per name, in order), body (not for HEAD); sniffed Content-Type, Date, Content-Length/Transfer-Encoding/Connection are excluded unless set by the handler; Content-Type on bodiless statuses (1xx/204/304) excluded",
 			"trailers, Hijack, panicking handlers, invalid status codes (<100, >999) and handler-set Content-Length/Transfer-Encoding/Connection/Date/Trailer are outside the generated programs",
 			"requests rejected by either parser, and absolute-form targets with an empty host (invalid, RFC 9110 4.2.1), are not compared (acceptance is C01/C09); the URL is compared field by field (scheme, opaque, userinfo, host, path, rawpath, rawquery, fragment); ContentLength/TransferEncoding/RemoteAddr/TLS fields are not part of the statement",
+			"overlap scenario: the other requests run in the middleware's goroutine on fresh RequestCtx values; whether they receive the first request's recycled buffer depends on sync.Pool's per-P caches (likely, not certain) — the regenerated fact buffered_body_is_copied pins the copy on the proof side",
 			"in-memory listener instead of TCP",
 		},
 		Build: func(kind string, a [][]byte) *Case {
 			switch kind {
 			case "prog":
-				return c36BuildProg(a)
+				return c36BuildProg(a, nil)
+			case "overlap":
+				if len(a) < 3 {
+					return nil
+				}
+				return c36BuildProg(append([][]byte{a[0], a[1]}, a[3:]...), a[2])
 			case "req":
 				return c36BuildReq(a)
 			}
@@ -812,7 +918,7 @@ func c36Gen(r *Rand, tier string, emit func(string, ...[]byte)) {
 		return [][]byte{{'F'}, nil, nil}
 	}
 	shapes := []string{"iwAB", "AwAB", "ABAB", "AFAB", "AAwB", "wwB", "BwB", "iiwB", "AiAwB", "FwB", "SDwB", "AwFAB", "BFB", "w", "", "AAAB", "iB", "iFB"}
-	var progs [][][]byte
+	var progs, emitLater [][][]byte
 	for i := 0; i < n; i++ {
 		var prog [][]byte
 		if r.Chance(35) {
@@ -827,10 +933,41 @@ func c36Gen(r *Rand, tier string, emit func(string, ...[]byte)) {
 		}
 		progs = append(progs, append([][]byte{B(r.Pick(methods)), B(r.Pick([]string{"1", "1", "0"}))}, prog...))
 	}
+	// body sizes across the thresholds of the adaptor's writer (pooled 32 KiB buffer, 512-byte sniffing window, 4 KiB
+	// bufio sizes): one big Write, split Writes, Write after Flush — alone ("prog") and with other adaptor requests
+	// served between the handler's return and the sending of the response ("overlap")
+	sizes := []int{0, 1, 511, 513, 4095, 4096, 4097, 8000, 20000, 32767, 32768, 32769, 102400}
+	pats := []string{"A", "ab", "0123456789"}
+	for _, n := range sizes {
+		pat := B(r.Pick(pats))
+		shapesR := [][][]byte{
+			{{'R'}, pat, N(n)},
+			{{'A'}, B("X-A"), B("1"), {'R'}, pat, N(n)},
+			{{'R'}, pat, N(n / 2), {'R'}, B("Zy"), N(n - n/2)},
+			{{'W'}, B("201"), nil, {'R'}, pat, N(n)},
+			{{'R'}, pat, N(n), {'F'}, nil, nil, {'R'}, B("q"), N(10)},
+			{{'B'}, B("x"), nil, {'R'}, pat, N(n)},
+		}
+		for _, sh := range shapesR {
+			m := B(r.Pick([]string{"GET", "GET", "POST"}))
+			progs = append(progs, append([][]byte{m, B("1")}, sh...))
+			for _, bs := range []int{100, 5000, 40000} {
+				emitLater = append(emitLater, append([][]byte{m, B("1"), N(bs)}, sh...))
+			}
+		}
+	}
+	// random programs, too, are run in the overlap scenario
+	for i := 0; i < n/8 && i < len(progs); i++ {
+		p := progs[r.Intn(len(progs))]
+		emitLater = append(emitLater, append([][]byte{p[0], p[1], N([]int{3000, 9000}[r.Intn(2)])}, p[2:]...))
+	}
 	// short programs first: the first failing case of a class is then a small one (no generic shrinking for programs)
 	sort.SliceStable(progs, func(i, j int) bool { return len(progs[i]) < len(progs[j]) })
 	for _, p := range progs {
 		emit("prog", p...)
+	}
+	for _, p := range emitLater {
+		emit("overlap", p...)
 	}
 	if tier == "thorough" {
 		alpha := [][][]byte{
